@@ -15,7 +15,7 @@
    number of parts (proved by induction, no bounds). *)
 From Coq Require Import ZArith List Bool Arith.
 From PF Require Import Lib.ListX Lib.PySlice Model.Ragged Model.RaggedSpec Model.RaggedCat.
-From PF Require Import Proofs.RaggedCatProofs.
+From PF Require Import Model.RaggedStore Proofs.RaggedCatProofs Proofs.RaggedStoreProofs.
 Import ListNotations.
 
 Section C06.
@@ -255,6 +255,74 @@ Section C06.
   Qed.
 
   (* ------------------------------------------------------------------ *)
+  (* 9. store level (Model/RaggedStore.v): `values` tensors are views into numbered
+     storages st; n_read / e_read is what an object holds now.  The aliasing the model
+     assigns to selections (views / same object / fresh) is compared with the real library
+     on every run (scenario "store"). *)
+  Variable is_na : A -> bool.
+
+  (* clone: an equal container in a NEW storage; no existing object changes *)
+  Theorem clone_allocates : forall (st st' : list (list A)) h c, n_clone A st h = Some (st', c) ->
+    n_buf c = length st
+    /\ (exists b, st' = st ++ [b])
+    /\ n_read A st' c = (t <- n_read A st h ;; mnt_clone A t)
+    /\ (forall h0, n_buf h0 < length st -> n_read A st' h0 = n_read A st h0).
+  Proof. exact (n_clone_spec A). Qed.
+
+  (* clone shares no storage: fillna_col on the clone changes NO object that existed before
+     the clone (the source, its views, ...), and fillna_col on the source does not change the clone *)
+  Theorem mnt_clone_shares_no_storage : forall (st st1 : list (list A)) h c, n_clone A st h = Some (st1, c) ->
+    forall j v st2,
+      (n_fill A is_na st1 c j v = Some st2 -> forall h0, n_buf h0 < length st -> n_read A st2 h0 = n_read A st h0)
+      /\ (n_fill A is_na st1 h j v = Some st2 -> n_read A st2 c = n_read A st1 c).
+  Proof. exact (n_clone_no_shared_storage A is_na). Qed.
+
+  Theorem met_clone_shares_no_storage : forall (st st1 : list (list (list A))) h c,
+    e_clone A st h = Some (st1, c) ->
+    forall j v st2,
+      (e_fill A is_na st1 c j v = Some st2 -> forall h0, e_buf h0 < length st -> e_read A st2 h0 = e_read A st h0)
+      /\ (e_fill A is_na st1 h j v = Some st2 -> e_read A st2 c = e_read A st1 c).
+  Proof. exact (e_clone_no_shared_storage A is_na). Qed.
+
+  (* fillna_col is in place: afterwards the object reads as the pure fillna_col of what it read
+     before; in its storage only the window of the object is written; every object on another
+     storage reads the same *)
+  Theorem mnt_fillna_col_in_place : forall (st st' : list (list A)) h j v, n_fill A is_na st h j v = Some st' ->
+    length st' = length st
+    /\ n_read A st' h = (t <- n_read A st h ;; mnt_fillna_col A is_na t j v)
+    /\ (forall h0, n_buf h0 <> n_buf h -> n_read A st' h0 = n_read A st h0)
+    /\ (exists b b', nth_error st (n_buf h) = Some b /\ nth_error st' (n_buf h) = Some b' /\
+                     firstn (n_start h) b' = firstn (n_start h) b /\
+                     skipn (n_start h + n_len h) b' = skipn (n_start h + n_len h) b).
+  Proof. exact (n_fill_spec A is_na). Qed.
+
+  Theorem met_fillna_col_writes_one_storage : forall (st st' : list (list (list A))) h j v,
+    e_fill A is_na st h j v = Some st' ->
+    length st' = length st /\ e_buf h < length st
+    /\ (forall k, k <> e_buf h -> nth_error st' k = nth_error st k)
+    /\ (forall h0, e_buf h0 <> e_buf h -> e_read A st' h0 = e_read A st h0).
+  Proof. exact (e_fill_frame A is_na). Qed.
+
+  (* cat does not modify its arguments (nor any other existing object): the result lives in a
+     new storage, except that a one-element torch_frame.cat / MultiEmbeddingTensor.cat returns
+     the element itself *)
+  Theorem mnt_cat_does_not_modify_arguments : forall (st st' : list (list A)) hs d tf r,
+    n_cat A junk_o junk_v st hs d tf = Some (st', r) ->
+    (forall h0, n_buf h0 < length st -> n_read A st' h0 = n_read A st h0)
+    /\ ((exists h, hs = [h] /\ tf = true /\ st' = st /\ r = h)
+        \/ (n_buf r = length st /\
+            n_read A st' r = (ts <- mapM (n_read A st) hs ;;
+                              if tf then x <- cat_tensor_data A junk_o junk_v (map TMnt ts) d ;; as_mnt A x
+                              else mnt_cat A junk_o junk_v ts d))).
+  Proof. exact (n_cat_frame A junk_o junk_v). Qed.
+
+  Theorem met_cat_does_not_modify_arguments : forall (st st' : list (list (list A))) hs d tf r,
+    e_cat A junk_o junk_v st hs d tf = Some (st', r) ->
+    (forall h0, e_buf h0 < length st -> e_read A st' h0 = e_read A st h0)
+    /\ ((exists h, hs = [h] /\ st' = st /\ r = h) \/ (exists b, st' = st ++ [b] /\ e_buf r = length st)).
+  Proof. exact (e_cat_frame A junk_o junk_v). Qed.
+
+  (* ------------------------------------------------------------------ *)
   (* 8. torch_frame.cat on tensor data: one element is returned as is, two or more
      containers go to the class method *)
   Theorem cat_tensor_data_dispatch : forall d,
@@ -304,6 +372,13 @@ Print Assumptions mnt_fillna_col_spec.
 Print Assumptions met_fillna_col_spec.
 Print Assumptions fill_cells_pointwise.
 Print Assumptions cat_tensor_data_dispatch.
+Print Assumptions clone_allocates.
+Print Assumptions mnt_clone_shares_no_storage.
+Print Assumptions met_clone_shares_no_storage.
+Print Assumptions mnt_fillna_col_in_place.
+Print Assumptions met_fillna_col_writes_one_storage.
+Print Assumptions mnt_cat_does_not_modify_arguments.
+Print Assumptions met_cat_does_not_modify_arguments.
 
 (* ---------------------------------------------------------------------- *)
 (* Non-vacuity: the hypotheses hold on concrete, non-trivial states, and the
@@ -356,3 +431,23 @@ Example ex_fillna :
   mnt_fillna_col nat (Nat.eqb 5) (mnt_of_cells 2 ex_m) 1 99 =
   Some (mnt_of_cells 2 [[[1; 2]; [3]]; [[]; [4; 99; 6]]; [[7]; []]]).
 Proof. vm_compute. reflexivity. Qed.
+
+(* store level: b = base ; s = b[1:3] (a VIEW) ; c = s.clone() ; c.fillna_col(0, 99) ; s.fillna_col(0, 77).
+   The write to the clone shows nowhere else; the write to the view shows in the base. *)
+Definition ex_prog : list stmt :=
+  [PBase [[[Some 1%Z; Some 5%Z]]; [[Some 5%Z]]; [[Some 3%Z; Some 5%Z]]];
+   PSel 0 0 (ISlice (Some 1%Z) (Some 3%Z) None); PClone 1; PFill 2 0 (Some 99%Z); PFill 1 0 (Some 77%Z)].
+Example ex_store :
+  n_observe (fun p => RaggedRun.payload_eqb p (Some 5%Z)) ex_prog =
+  Some [CCells 3 1 [[[Some 1%Z; Some 5%Z]]; [[Some 77%Z]]; [[Some 3%Z; Some 77%Z]]];
+        CCells 2 1 [[[Some 77%Z]]; [[Some 3%Z; Some 77%Z]]];
+        CCells 2 1 [[[Some 99%Z]]; [[Some 3%Z; Some 99%Z]]];
+        CCells 2 1 [[[Some 99%Z]]; [[Some 3%Z; Some 99%Z]]];
+        CCells 2 1 [[[Some 77%Z]]; [[Some 3%Z; Some 77%Z]]]].
+Proof. vm_compute. reflexivity. Qed.
+
+(* the hypothesis of mnt_clone_shares_no_storage is satisfiable on a view with non-zero start *)
+Example ex_clone_hyp :
+  exists st1 c, n_clone nat [[7; 1; 2; 3; 9]] {| n_nr := 1; n_nc := 2; n_offs := [0; 1; 3]; n_buf := 0; n_start := 1; n_len := 3 |}
+                = Some (st1, c) /\ n_buf c = 1.
+Proof. eexists. eexists. vm_compute. split; reflexivity. Qed.
